@@ -105,7 +105,13 @@ struct TextIn
   bool key(const char* k)
   {
     std::string w;
-    if (!(is >> w) || (w != k))
+    if (!(is >> w))
+    {
+      // end of the text: fields appended to a case type after a replay file was stored keep their default
+      // value (new fields must therefore be added at the END of the top-level io() list)
+      return false;
+    }
+    if (w != k)
     {
       if (ok) fprintf(stderr, "replay parse error: expected key '%s' got '%s'\n", k, w.c_str());
       ok = false;
